@@ -48,14 +48,16 @@ def cover_sets(ctx, scope, rot):
     res = ctx.tlc_expect_ok(['system'], 'ConfigCover.tla', 'Cover_gen.cfg', workers=2, timeout=900,
                             extra_files={'Cover_gen.cfg': cfg})
     out = {}
-    for name in ('quick', 'cover', 'full'):
+    for name in ('quick', 'cover', 'full', 'boundary_quick', 'boundary_all'):
         path = os.path.join(res.dir, name + '.ndjson')
         if not os.path.exists(path):
             raise vlib.Infra('ConfigCover did not export %s' % name)
         out[name] = [json.loads(l) for l in open(path)]
     m = re.search(r'"COUNTS", (\d+), (\d+), (\d+)', res.out)
     ctx.cov.setdefault('config_space', {})[scope] = {'quick': len(out['quick']), 'cover': len(out['cover']),
-                                                      'full': len(out['full'])}
+                                                      'full': len(out['full']),
+                                                      'unified_share_boundary_quick': len(out['boundary_quick']),
+                                                      'unified_share_boundary_all': len(out['boundary_all'])}
     if not m:
         raise vlib.Infra('ConfigCover printed no counts')
     return out
@@ -566,6 +568,9 @@ def run(ctx, selftest=False):
         cases += [c for c in sets['full'] if c['c']['mode'] == 'emu' and case_key(c) not in seen]
     else:
         cases = [c for c in cases if c['w'] not in HOST_CONCURRENT]
+    # unified-device runs whose work-group count sits on a share boundary of distributeWGToGPUs (derived in Config.tla from
+    # the CU count of each platform): the counts at which a GPU gets its last / exactly one / no work-group
+    cases += sets['boundary_all'] if thorough else sets['boundary_quick']
     cases += sampled_cases(ctx, 'acceptance', 150 if thorough else 14)
     # cheap first is irrelevant; run timing cases first so that the long ones do not form the tail
     cases.sort(key=lambda c: (0 if c['c']['mode'] == 'timing' else 1, -c['c']['n']))
@@ -599,7 +604,8 @@ def run(ctx, selftest=False):
     ctx.cov.update({'evaluations': len(results), 'distinct_nontrivial': len(distinct), 'runs_per_workload': byw,
                     'timing_runs': sum(1 for r in results if r['case']['c']['mode'] == 'timing'),
                     'multi_gpu_runs': sum(1 for r in results if r['case']['c']['n'] > 1),
-                    'sampled_runs': sum(1 for r in results if r['case'].get('sampled'))})
+                    'sampled_runs': sum(1 for r in results if r['case'].get('sampled')),
+                    'unified_share_boundary_runs': sum(1 for r in results if r['case'].get('boundary'))})
     ctx.assumptions += [
         'deciding oracle is each workload\'s own Verify() (host reference); fft\'s Verify compares two host copies and cannot fail, '
         'simpleconvolution/stencil2d use constant inputs, matrixmultiplication checks row 0 only (weak references are the workloads\' own)',
